@@ -396,7 +396,8 @@ class GalliaBaseModel(BaseCommand, ABC):
         result = {}
 
         for name, info in cls.model_fields.items():
-            if isinstance(info, ConfigArgFieldInfo):
+            # Fields without a config section are not part of the config file (nor of the template)
+            if isinstance(info, ConfigArgFieldInfo) and info.config_section is not None:
                 config_attribute = (
                     f"{info.config_section}.{name}" if info.config_section != "" else name
                 )
